@@ -24,7 +24,8 @@ CONSTANTS
     Lens,        \* actual lengths examined (honest cases)
     FaultLens,   \* the lengths for which every fault parameter is enumerated
     Ctors,
-    NObservers   \* number of (handle kind, observer method) pairs the harness knows
+    NObservers,  \* number of (handle kind, observer method) pairs the harness knows
+    NReleases    \* number of handle kinds whose last release is tried with a panicking destructor
 
 MaxOf(S) == CHOOSE x \in S : \A y \in S : y <= x
 MaxLen == MaxOf(Lens) + 2
@@ -68,14 +69,20 @@ HonestCases ==
 \* a comparison / hash / format impl of the payload panics while a handle of kind k is being
 \* compared, hashed or formatted (k indexes the harness's list of (handle kind, trait method))
 ObserverCases == {Mk("observe", 0, k, 0, 0, 0, 0, 0, FALSE) : k \in 1..NObservers}
-Cases == FaultCases \cup HonestCases \cup ObserverCases
+\* the payload's destructor panics while the last handle of kind k is released: the block is still
+\* returned to the allocator, once
+ReleaseCases == {Mk("release", 0, k, 0, 0, 0, 0, 0, FALSE) : k \in 1..NReleases}
+\* an ArcUnion whose two payload types have the same size and alignment, only one of them with a
+\* destructor: the last release runs the destructor of the variant it holds
+UnionDropCases == {Mk("union_drop", 0, k, 0, 0, 0, 0, 0, FALSE) : k \in 1..4}
+Cases == FaultCases \cup HonestCases \cup ObserverCases \cup ReleaseCases \cup UnionDropCases
 
 \* cases within the property's quantifier: |reported - actual| <= 2
 InScope(x) ==
     /\ x.ctor \in Ctors
     /\ x.l1 \in Near(x.a) /\ x.l2 \in Near(x.a) /\ x.lo \in Near(x.a) \cup {0}
     /\ (x.up = 99 \/ x.up \in Near(x.a))
-    /\ (x.k <= x.a + 2 \/ x.ctor = "observe")
+    /\ (x.k <= x.a + 2 \/ x.ctor \in {"observe", "release", "union_drop"})
     /\ x.ctor = "collect" => x.lo <= x.up
 
 Init ==
@@ -118,6 +125,14 @@ Start ==
          \* observers: the panic propagates, nothing else happens (the handle and its value pre-exist)
          [] c.ctor = "observe" -> /\ result' = "panic" /\ pc' = "done"
                                   /\ UNCHANGED <<n, calls, fate, drops, hdr, hdrops, blk, vecbuf>>
+         \* last release with a panicking destructor: drop_slow's Box frees the block during the unwind
+         [] c.ctor = "release" -> /\ result' = "panic" /\ pc' = "done" /\ blk' = "freed"
+                                  /\ hdr' = "gone" /\ hdrops' = 1
+                                  /\ UNCHANGED <<n, calls, fate, drops, vecbuf>>
+         \* typed release of an ArcUnion: the held variant's destructor, once, and the block freed
+         [] c.ctor = "union_drop" -> /\ result' = "ok" /\ pc' = "done" /\ blk' = "freed"
+                                     /\ hdr' = "gone" /\ hdrops' = 1
+                                     /\ UNCHANGED <<n, calls, fate, drops, vecbuf>>
          [] c.ctor = "vec" -> /\ n' = c.a /\ pc' = "alloc" /\ vecbuf' = "live"
                               /\ UNCHANGED <<calls, fate, drops, hdr, hdrops, blk, result>>
          \* from_header_and_slice / From<&[T]> / from_header_and_str / From<&str> / From<String>:
@@ -220,7 +235,7 @@ AtMostOnce == \A i \in 1..MaxLen : drops[i] <= 1 /\ (i > c.a => drops[i] = 0) /\
 \* C06/C07: a handle is produced only when every slot it exposes was written, in order, from the
 \* input, and the recorded length is the slice length
 NoUninitExposed ==
-    (Done /\ result = "ok") =>
+    (Done /\ result = "ok" /\ c.ctor # "union_drop") =>
         /\ n = c.a
         /\ \A i \in Elems : fate[i] = "slot"
         /\ hdr = "block" /\ blk = "handed"
@@ -241,7 +256,7 @@ SourceReleased == Done => vecbuf \in {"none", "freed"}
 \* C07: after a panic every element is either destroyed once or leaked inside the leaked block;
 \* the only loss is the half-built block
 PanicOutcome ==
-    (Done /\ result = "panic") =>
+    (Done /\ result = "panic" /\ c.ctor # "release") =>
         /\ \A i \in Elems : fate[i] \in {"gone", "slot"}
         /\ (\E i \in Elems : fate[i] = "slot") => blk \in {"leaked"}
         /\ blk \in {"none", "leaked", "freed"}
@@ -250,7 +265,10 @@ PanicOutcome ==
 \* C07: allocation failure ends in the allocation-error abort, before anything is written
 AllocFailAborts == (Done /\ c.afail) => (result = "abort" /\ blk = "none")
 
-Inv == AtMostOnce /\ NoUninitExposed /\ HonestSucceeds /\ SourceReleased /\ PanicOutcome /\ AllocFailAborts
+\* C05: whatever the destructor does, the last release returns the block, once
+ReleaseFrees == (Done /\ c.ctor \in {"release", "union_drop"}) => (blk = "freed" /\ hdrops = 1)
+
+Inv == ReleaseFrees /\ AtMostOnce /\ NoUninitExposed /\ HonestSucceeds /\ SourceReleased /\ PanicOutcome /\ AllocFailAborts
 
 \* what the implementation must show for the case (exported at `done`)
 Outcome == [ctor |-> c.ctor, a |-> c.a, k |-> c.k, l1 |-> c.l1, l2 |-> c.l2, lo |-> c.lo, up |-> c.up, cap |-> c.cap,
